@@ -1,13 +1,11 @@
-// Package c03 is the correspondence harness for property C03 (placeholder).
+// Package c03 is the correspondence harness for property C03; the machinery is shared
+// with the other response-merging properties (package merge).
 package c03
 
 import (
-	"errors"
-
 	"verifh/internal/hx"
 	"verifh/internal/lineio"
+	"verifh/merge"
 )
 
-func Run(o *hx.Opts, w *lineio.Writer) error {
-	return errors.New("C03 harness not implemented")
-}
+func Run(o *hx.Opts, w *lineio.Writer) error { return merge.Run(o, w, 3) }
